@@ -10,6 +10,7 @@ mod reader;
 mod replay;
 mod rng;
 mod slice;
+mod stats;
 mod unproj;
 
 use serde_json::{json, Value as J};
@@ -76,6 +77,7 @@ fn main() {
                 "slice" => slice::record(mode, seed, n, &mut out),
                 "build" => build::record(mode, seed, n, &mut out),
                 "reader" => reader::record(mode, seed, n, &mut out),
+                "stats" => stats::record(mode, seed, n, &mut out),
                 "codes" => codes::record(mode, seed, n, &mut out, arg(&args, "--shard").map(|s| s.parse().unwrap()).unwrap_or(0), arg(&args, "--of").map(|s| s.parse().unwrap()).unwrap_or(1)),
                 _ => { eprintln!("unknown suite {}", suite); std::process::exit(2) }
             }
@@ -93,6 +95,7 @@ fn main() {
                 "slice" => replay::slice_cases(mode, &cases, &mut out),
                 "build" => build::replay(mode, &cases, &mut out),
                 "reader" => reader::replay(mode, &cases, &mut out),
+                "stats" => stats::replay(mode, &cases, &mut out),
                 _ => { eprintln!("unknown suite {}", suite); std::process::exit(2) }
             }
             out.finish(&out_path, json!({"cases": cases.len()}));
@@ -111,6 +114,7 @@ fn main() {
                 "slice" => slice::rerun(&ev),
                 "build" => build::rerun(&ev),
                 "reader" => reader::rerun(&ev),
+                "stats" => stats::rerun(&ev),
                 "codes" => codes::rerun(&ev),
                 _ => { eprintln!("unknown suite {}", suite); std::process::exit(2) }
             };
